@@ -25,6 +25,8 @@ CONSTANTS MaxFun,            \* evaluation budget
           RhoLevels,         \* rho takes levels RhoLevels (= rhobeg) down to rhoend
           RhoendScaleDrop,   \* 1: restarts.rhoend_scale < 1 (rhoend drops one level per restart), 0: scale = 1
           MaxRuns,           \* state constraint on the number of runs
+          WithNoise,         \* noise.quit_on_noise_level: "all values within noise level" may end the run / trigger a restart at the top of an iteration
+          RegSteps,          \* regression.num_extra_steps: geometry steps on the furthest points after a successful trust-region step
           WithAuto, WithFalseSuccess,   \* include the auto-detected-restart / false-success exits (switched off for the driven replay, which cannot script them)
           DefSoftSwap,       \* F-03 soft_restart saves (nx, nsamples) for (nsamples, eval_num)
           DefTrialLost,      \* F-04 trial point not saved on the trust-region-increase exit
@@ -44,10 +46,11 @@ MinI(a, b) == IF a <= b THEN a ELSE b
 
 VARIABLES pc, nf, nx, nruns, mdl, rho, rhoendL, rhoendC, softLSR, softLastFopt, hardLSR, best, exitInfo,
           ptval, ptns, geomLeft, addLeft, restarts, x0inherit, ret, npt, batchlog,
+          reg,       \* regression extra steps in progress: [left, done]  (done = slots excluded: the incumbent of that moment and slots already moved)
           geomDone,  \* slots already moved by the geometry steps of the soft restart in progress (the code moves DISTINCT closest points)
           phaseReq   \* samples per point asked for by the nsamples callback for a whole phase (initial set; one soft restart): the code calls it once per phase
 vars == <<pc, nf, nx, nruns, mdl, rho, rhoendL, rhoendC, softLSR, softLastFopt, hardLSR, best, exitInfo,
-          ptval, ptns, geomLeft, addLeft, restarts, x0inherit, ret, npt, batchlog, phaseReq, geomDone>>
+          ptval, ptns, geomLeft, addLeft, restarts, x0inherit, ret, npt, batchlog, phaseReq, geomDone, reg>>
 
 NoExit == [flag |-> "none", msg |-> "none"]   \* exitInfo additionally records whether the run was left from the initialisation phase (no Jacobian returned then)
 Exit(f, m) == [flag |-> f, msg |-> m]
@@ -60,7 +63,7 @@ Restartable(e) == \/ e.flag \in {"tr_increase", "linalg", "slow", "eval_error", 
 
 Init == /\ pc = "x0eval" /\ nf = 0 /\ nx = 0 /\ nruns = 0 /\ mdl = NoModel /\ rho = RhoLevels /\ rhoendL = 0 /\ rhoendC = 0
         /\ softLSR = 0 /\ softLastFopt = 0 /\ hardLSR = 0 /\ best = NoBest /\ exitInfo = NoExit /\ ptval = <<>> /\ ptns = <<>>
-        /\ geomLeft = 0 /\ addLeft = 0 /\ restarts = 0 /\ x0inherit = FALSE /\ ret = NoBest /\ npt = NPT /\ batchlog = <<>> /\ phaseReq = 1 /\ geomDone = {}
+        /\ geomLeft = 0 /\ addLeft = 0 /\ restarts = 0 /\ x0inherit = FALSE /\ ret = NoBest /\ npt = NPT /\ batchlog = <<>> /\ phaseReq = 1 /\ geomDone = {} /\ reg = [left |-> 0, done |-> {}]
 
 \* ------------------------------------------------------------------ evaluate_objective (controller.py:625-659)
 \* One batch: req samples requested; ran = min(req, MaxFun - nf) are run.  v1 = objective of the first sample,
@@ -112,7 +115,7 @@ X0Eval ==
   /\ rho' = RhoLevels /\ rhoendC' = rhoendL /\ softLSR' = 0
   /\ phaseReq' \in 1..MaxSamples
   /\ softLastFopt' = IF x0inherit THEN best.obj ELSE IF Len(ptval') > 0 THEN ptval'[Len(ptval')] ELSE 0
-  /\ UNCHANGED <<rhoendL, hardLSR, best, geomLeft, addLeft, restarts, x0inherit, npt, geomDone>>
+  /\ UNCHANGED <<rhoendL, hardLSR, best, geomLeft, addLeft, restarts, x0inherit, npt, geomDone, reg>>
 
 \* generic: evaluate a point and either put it into slot k, or (on an exit) save it and leave
 EvalIntoR(k, after, reqs) ==
@@ -134,7 +137,7 @@ InitPoint ==
   /\ IF Len(mdl.slots) >= npt
      THEN pc' = "loop" /\ NoEval /\ UNCHANGED <<mdl, exitInfo, nruns>>
      ELSE EvalIntoR(Len(mdl.slots) + 1, "init", {phaseReq})
-  /\ UNCHANGED <<ret, restarts, phaseReq>> /\ UNCHANGED Radii /\ UNCHANGED Hard /\ UNCHANGED Soft
+  /\ UNCHANGED <<ret, restarts, phaseReq, reg>> /\ UNCHANGED Radii /\ UNCHANGED Hard /\ UNCHANGED Soft
 
 \* ------------------------------------------------------------------------ main loop (solver.py:263-933)
 \* Interpolate (solver.py:305-332): forced to fail when a slot holds a non-finite value; may fail otherwise (singular)
@@ -143,7 +146,13 @@ Interpolate ==
   /\ \/ /\ mdl' = InterpM(mdl, FALSE) /\ RestartOrExit(Exit("linalg", "interp"))
      \/ /\ ~HasNonFinite(mdl) /\ (WithInf => \A k \in 1..Len(mdl.slots) : mdl.slots[k].obj # Inf)
         /\ mdl' = InterpM(mdl, TRUE) /\ pc' \in {"safety", "tr"} /\ UNCHANGED <<exitInfo, nruns>>
-  /\ NoEval /\ UNCHANGED <<ret, restarts, phaseReq>> /\ UNCHANGED Radii /\ UNCHANGED Hard /\ UNCHANGED Soft
+  /\ NoEval /\ UNCHANGED <<ret, restarts, phaseReq, reg>> /\ UNCHANGED Radii /\ UNCHANGED Hard /\ UNCHANGED Soft
+
+\* Noise-level exit check at the top of an iteration (solver.py:284-303): a verdict of the numerical test all_values_within_noise_level
+NoiseExit ==
+  /\ pc = "loop" /\ WithNoise
+  /\ RestartOrExit(Exit("success", "noise"))
+  /\ NoEval /\ UNCHANGED <<mdl, ret, restarts, phaseReq, reg>> /\ UNCHANGED Radii /\ UNCHANGED Hard /\ UNCHANGED Soft
 
 \* reduce_rho (controller.py:719-733) on levels: rho drops one level, or to the controller's rhoend when close
 ReduceRho == rho' = IF rho - rhoendC <= 1 THEN rhoendC ELSE rho - 1
@@ -166,7 +175,7 @@ Safety ==
                 /\ Counted(req, v, v)
                 /\ mdl' = IF Ran(req) > 0 THEN SavePointM(mdl, v, Ran(req), nx + 1) ELSE mdl
                 /\ RunExit(IF BatchExit(req, v) # NoExit THEN BatchExit(req, v) ELSE Exit("success", "rhoend"))
-  /\ UNCHANGED <<ret, restarts, phaseReq>> /\ UNCHANGED Hard /\ UNCHANGED Soft
+  /\ UNCHANGED <<ret, restarts, phaseReq, reg>> /\ UNCHANGED Hard /\ UNCHANGED Soft
 
 \* Trust-region step (solver.py:533-700)
 TRStep ==
@@ -190,10 +199,24 @@ TRStep ==
                    \E k \in 1..Len(mdl.slots) :
                      /\ (k = mdl.kopt => Lt(v, ObjOpt(mdl)))
                      /\ mdl' = IntoSlot(mdl, k, v1, v, Ran(req), nx + 1)
-                     /\ \/ Lt(v, ObjOpt(mdl)) /\ pc' = "loop" /\ UNCHANGED <<exitInfo, nruns>>     \* successful step (ratio >= eta1): next iteration
+                     /\ \/ Lt(v, ObjOpt(mdl)) /\ pc' = (IF RegSteps > 0 THEN "regress" ELSE "loop") /\ UNCHANGED <<exitInfo, nruns>>     \* successful step (ratio >= eta1)
                         \/ Lt(v, ObjOpt(mdl)) /\ RestartOrExit(Exit("slow", "slow"))
                         \/ WithFalseSuccess /\ Lt(v, ObjOpt(mdl)) /\ mdl.save.has /\ Lt(mdl.save.obj, v) /\ RunExit(Exit("false_success", "false_success"))
                         \/ ~Lt(v, ObjOpt(mdl)) /\ pc' = "trtail" /\ UNCHANGED <<exitInfo, nruns>>
+  \* entering the regression phase: the furthest-point list is computed once, from the incumbent AFTER the update; one sample request for the phase
+  /\ reg' = IF pc' = "regress" THEN [left |-> MinI(RegSteps, Len(mdl'.slots) - 1), done |-> {mdl'.kopt}] ELSE reg
+  /\ phaseReq' \in (IF pc' = "regress" THEN 1..MaxSamples ELSE {phaseReq})
+  /\ UNCHANGED <<ret, restarts>> /\ UNCHANGED Radii /\ UNCHANGED Hard /\ UNCHANGED Soft
+
+\* regression: move the furthest points by geometry steps (solver.py:769-801, controller.py:871-888)
+Regress ==
+  /\ pc = "regress"
+  /\ IF reg.left = 0
+     THEN pc' = "loop" /\ NoEval /\ UNCHANGED <<mdl, exitInfo, nruns, reg>>
+     ELSE \/ \E k \in (1..Len(mdl.slots)) \ reg.done :
+               /\ EvalIntoR(k, "regress", {phaseReq})
+               /\ reg' = [left |-> reg.left - 1, done |-> reg.done \cup {k}]
+          \/ RestartOrExit(Exit("linalg", "geom")) /\ NoEval /\ UNCHANGED <<mdl, reg>>
   /\ UNCHANGED <<ret, restarts, phaseReq>> /\ UNCHANGED Radii /\ UNCHANGED Hard /\ UNCHANGED Soft
 
 \* after an unsuccessful step: geometry / reduce rho / stop (solver.py:858-931)
@@ -207,7 +230,7 @@ TRTail ==
      \/ /\ ~(rho > rhoendL) /\ NoEval /\ UNCHANGED mdl /\ UNCHANGED Radii
         /\ IF UseRestarts /\ SoftRestarts THEN pc' = "softadmit" /\ UNCHANGED <<exitInfo, nruns>>
            ELSE RunExit(Exit("success", "rhoend"))
-  /\ UNCHANGED <<ret, restarts, phaseReq>> /\ UNCHANGED Hard /\ UNCHANGED Soft
+  /\ UNCHANGED <<ret, restarts, phaseReq, reg>> /\ UNCHANGED Hard /\ UNCHANGED Soft
 
 \* ------------------------------------------------------------------ soft restart (controller.py:782-869)
 SoftAdmit ==
@@ -226,7 +249,7 @@ SoftAdmit ==
                 /\ pc' = "softgeom" /\ UNCHANGED <<exitInfo, nruns>>
   /\ phaseReq' \in 1..MaxSamples
   /\ geomDone' = IF MoveXk THEN {} ELSE {mdl.kopt}     \* without move_xk the incumbent of this moment is excluded from the closest-point list
-  /\ NoEval /\ UNCHANGED <<rhoendL, rhoendC, ret, restarts>> /\ UNCHANGED Hard
+  /\ NoEval /\ UNCHANGED <<rhoendL, rhoendC, ret, restarts, reg>> /\ UNCHANGED Hard
 
 SoftDone == /\ pc' = "loop" /\ nruns' = nruns + 1 /\ restarts' = restarts + 1
             /\ rhoendL' = rhoendL - RhoendScaleDrop
@@ -253,7 +276,7 @@ SoftGeom ==
                        /\ UNCHANGED <<pc, exitInfo, nruns>>
           /\ addLeft' = addLeft - 1 /\ UNCHANGED <<geomLeft, restarts, rhoendL, rhoendC, geomDone>>
      ELSE /\ SoftDone /\ NoEval /\ UNCHANGED <<mdl, exitInfo, geomLeft, addLeft, geomDone>>
-  /\ UNCHANGED <<rho, softLSR, softLastFopt, ret, phaseReq>> /\ UNCHANGED Hard
+  /\ UNCHANGED <<rho, softLSR, softLastFopt, ret, phaseReq, reg>> /\ UNCHANGED Hard
 
 \* ------------------------------------------------ end of a run, hard-restart loop, merge, packaging (solver.py:935-940, 1120-1173)
 RunEnd ==
@@ -275,11 +298,11 @@ RunEnd ==
                                    e1 == IF nruns - hls >= MaxUnsucc THEN Exit("success", "max_unsucc") ELSE e0
                                IN IF ~DefSuccessNonFinite /\ e1.flag = "success" /\ ~IsFinite(nbest.obj) THEN Exit("eval_error", "nonfinite") ELSE e1
   /\ mdl' = NoModel /\ ret' = NoBest
-  /\ NoEval /\ UNCHANGED <<nruns, rho, rhoendC, softLSR, softLastFopt, geomLeft, addLeft, phaseReq, geomDone>>
+  /\ NoEval /\ UNCHANGED <<nruns, rho, rhoendC, softLSR, softLastFopt, geomLeft, addLeft, phaseReq, geomDone, reg>>
 
 Done == pc = "done" /\ UNCHANGED vars
 
-Next == X0Eval \/ InitPoint \/ Interpolate \/ Safety \/ TRStep \/ TRTail \/ SoftAdmit \/ SoftGeom \/ RunEnd \/ Done
+Next == X0Eval \/ InitPoint \/ NoiseExit \/ Interpolate \/ Safety \/ TRStep \/ Regress \/ TRTail \/ SoftAdmit \/ SoftGeom \/ RunEnd \/ Done
 Spec == Init /\ [][Next]_vars
 FairSpec == Spec /\ WF_vars(Next)
 RunsBound == nruns <= MaxRuns
@@ -319,7 +342,7 @@ C07_DocumentedFlag == pc = "done" => exitInfo.flag # "auto"
 C11_JacNames == (pc = "done" /\ best.hasjac) => \A i \in 1..Len(best.jacen) : best.jacen[i] = 0 \/ best.jacen[i] \in Pts
 C11_Snapshot == \A i \in 1..Len(mdl.jacen) : mdl.jacen[i] = 0 \/ mdl.jacen[i] \in Pts
 \* --- C18 (levels)
-C18_Radii == pc \in {"loop", "safety", "tr", "trtail"} => (rho <= RhoLevels /\ rho >= rhoendL)
+C18_Radii == pc \in {"loop", "safety", "tr", "trtail", "regress"} => (rho <= RhoLevels /\ rho >= rhoendL)
 \* --- termination (precondition of everything; fails as found: F-14)
 Termination == <>(pc = "done")
 TypeOK == /\ nf \in 0..(MaxFun + MaxSamples) /\ nx \in 0..(MaxFun + 1) /\ mdl.kopt \in 1..(NPT + IncNpt + 1)
